@@ -786,35 +786,30 @@ func judge(how string, hs1, hs2 []uint64, rec record, best uint64, chainOf []bui
 	}
 	rep := map[string]interface{}{"how": how, "heights_the_blocks_were_produced_under": hs1, "stored_record_kind": rec.kind, "stored_record": string(rec.json),
 		"heights_of_the_new_start": hs2, "change": cfgKind, "best_block": best, "block_no": no, "version_in_block_header": was, "version_after_start": now}
-	// shapes of the two defect candidates reported to the lead (counted, not failed, until listed or repaired)
+	// the known finding (known_findings.json): ChainDB.Hardfork fills the keys the stored record lacks with the node's own heights
+	// (FixDbConfig) before CheckCompatibility runs, and takes an unreadable record for "no record": a fork height newly introduced
+	// at or below the best block is accepted. Any other instability is a plain failure.
 	missing := false
 	for i := range hs2 {
 		if _, ok := rec.kv[uint64(i+2)]; !ok && rec.json != nil && !rec.bad && hs2[i] <= best && hs2[i] != hs1[i] {
 			missing = true
 		}
 	}
+	const known = "C19-hardfork-new-fork-height-at-or-below-best-accepted"
 	switch {
 	case rec.bad:
-		run.Count("DEFECT-CANDIDATE:unparsable-record-skips-compatibility-check")
-		candidate("C19-hardfork-unparsable-record-skips-check", rep)
+		run.Count("known:unparsable-record-skips-compatibility-check")
+		run.FailKnown("the node started although the hardfork version of an existing block changed: the stored hardfork record is unreadable, "+
+			"ChainDB.Hardfork returns nil for it and checkHardfork skips CheckCompatibility", known, rep)
 	case rec.json == nil:
 		// no record at all: a store initialised before the first start; nothing to compare with (the record is written by the first start)
 		run.Count("version-changed-without-stored-record")
 	case missing:
-		run.Count("DEFECT-CANDIDATE:missing-key-filled-from-node-config-before-check")
-		candidate("C19-hardfork-new-fork-height-at-or-below-best-accepted", rep)
+		run.Count("known:missing-key-filled-from-node-config-before-check")
+		run.FailKnown("the node started although the hardfork version of an existing block changed: the stored hardfork record lacks the key of a version "+
+			"this release configures at or below the best block; FixDbConfig fills it with the node's own height before CheckCompatibility", known, rep)
 	default:
 		run.Fail("the node started although the hardfork version of an existing block changed (version in the stored block header differs from Version(block no) after the start)", rep)
-	}
-}
-
-var candidates = map[string]interface{}{}
-
-func candidate(class string, rep map[string]interface{}) {
-	if _, ok := candidates[class]; !ok {
-		candidates[class] = rep
-		b, _ := json.Marshal(rep)
-		run.Sample("defect candidate " + class + ": " + string(b))
 	}
 }
 
